@@ -57,7 +57,12 @@ try:
         demo_cmd = "go run ./zz_demo"
     # 1. with patch: suite passes
     rc, out = sh("git apply %s" % patch, cwd=wt); assert rc == 0
-    rc, out = sh("go build ./... && go test -vet=off -count=1 ./...", cwd=wt)
+    for attempt in range(3):
+        # the suite has load-sensitive tests (allocation counts, timing): a failure is re-tried on the busy machine
+        rc, out = sh("go build ./... && go test -vet=off -count=1 ./...", cwd=wt)
+        if rc == 0:
+            break
+        meta.setdefault("suite_retries", []).append(re.findall(r"--- FAIL: (\S+)", out)[:5])
     meta["suite_passes_with_patch"] = (rc == 0)
     if rc != 0:
         meta["suite_output_tail"] = out[-1500:]
